@@ -71,4 +71,6 @@ LEVEL = "proof"
 LEVEL_TEXT = ("Theorems over the serializer and deserializer models: encoding (resp. decoding a valid encoding of) a well-formed value "
               "succeeds iff its nesting stays within 32 arrays / 32 structs / 64 containers, and fails with a depth error otherwise; the "
               "counters are restored on every exit path. Tied to /repo by towers of containers around every limit in mixed orders.")
-LEVEL_NOTE = "D-Bus format only (GVariant not modelled: partial). Limits 32/32/64 are re-read from container_depths.rs on every run."
+LEVEL_NOTE = ("This check covers the D-Bus format; the GVariant serializer half (theorem C07_gv_ser, an iff) lives in the C05 check, the "
+              "GVariant decoder half is covered there by correspondence only. Limits 32/32/64 are re-read from "
+              "container_depths.rs on every run.")
